@@ -337,7 +337,15 @@ def main():
         if 'self' in args and len(parts) == 2:
             s = args.pop('self')
             attr = parts[1] if not parts[1].startswith('__') or parts[1].endswith('__') else f'_{parts[0]}{parts[1]}'
-            if isinstance(getattr(type(s), attr, None), property):
+            if type(s) is object:
+                # an opaque self: the method is taken from the class; a run that touches the opaque object is no replay
+                try:
+                    result = getattr(getattr(mod, parts[0]), attr)(s, **args)
+                except AttributeError as e:
+                    if "'object' object has no attribute" in str(e):
+                        raise NotConstructible(f'opaque self used ({e})')
+                    raise
+            elif isinstance(getattr(type(s), attr, None), property):
                 result = getattr(s, attr)            # a property getter under contract
             else:
                 result = getattr(s, attr)(**args)
